@@ -162,29 +162,32 @@ Proof.
   rewrite app_length. simpl. lia.
 Qed.
 
-(* what _is_valid_uri guarantees, over the table reflected from the source *)
-Lemma table_covers_grammar : forallb (fun x => memN x invalid_uri_chars) (32 :: iri_forbidden) = true.
+(* what _is_valid_uri guarantees, over the table reflected from the source: every character the IRIREF
+   production excludes (U+0000-U+0020 and the punctuation) is in _invalid_uri_chars *)
+Lemma table_covers_grammar :
+  forallb (fun x => memN x invalid_uri_chars) (map N.of_nat (seq 0 33) ++ iri_forbidden) = true.
 Proof. vm_compute. reflexivity. Qed.
 
-Lemma valid_uri_iri_ok : forall s, valid_uri s = true -> has_ctrl s = false -> forallb iri_plain s = true.
+Lemma le32_in_table : forall c, c <= 32 -> In c (map N.of_nat (seq 0 33)).
 Proof.
-  intros s Hv Hc. apply forallb_forall. intros c Hin.
+  intros c H. replace c with (N.of_nat (N.to_nat c)) by apply N2Nat.id.
+  apply in_map. apply in_seq. lia.
+Qed.
+
+Lemma valid_uri_iri_ok : forall s, valid_uri s = true -> forallb iri_plain s = true.
+Proof.
+  intros s Hv. apply forallb_forall. intros c Hin.
   unfold valid_uri in Hv. rewrite forallb_forall in Hv.
-  assert (Hno : forall x, In x (32 :: iri_forbidden) -> (c =? x) = false).
+  assert (Hno : forall x, In x (map N.of_nat (seq 0 33) ++ iri_forbidden) -> (c =? x) = false).
   { intros x Hx. pose proof table_covers_grammar as T. rewrite forallb_forall in T.
     specialize (T x Hx). apply memN_In in T. specialize (Hv x T). apply negb_true_iff in Hv.
     eapply memN_false; eauto. }
   unfold iri_plain. apply andb_true_iff. split.
-  - apply negb_true_iff. apply N.leb_gt.
-    assert (H32 : (c =? 32) = false) by (apply Hno; left; reflexivity).
-    apply N.eqb_neq in H32.
-    unfold has_ctrl in Hc.
-    assert (Hlt : (c <? 32) = false).
-    { destruct (c <? 32) eqn:E; [|reflexivity].
-      assert (existsb (fun c => c <? 32) s = true) by (apply existsb_exists; exists c; auto). congruence. }
-    apply N.ltb_ge in Hlt. lia.
+  - apply negb_true_iff. destruct (c <=? 32) eqn:E; [|reflexivity].
+    apply N.leb_le in E. specialize (Hno c (in_or_app _ _ _ (or_introl (le32_in_table c E)))).
+    rewrite N.eqb_refl in Hno. discriminate.
   - apply negb_true_iff. destruct (memN c iri_forbidden) eqn:E; [|reflexivity].
-    apply memN_In in E. specialize (Hno c (or_intror E)). rewrite N.eqb_refl in Hno. discriminate.
+    apply memN_In in E. specialize (Hno c (in_or_app _ _ _ (or_intror E))). rewrite N.eqb_refl in Hno. discriminate.
 Qed.
 
 (* ------------------------------------------------------------ BLANK_NODE_LABEL *)
@@ -262,15 +265,6 @@ Proof.
     rewrite app_length. simpl in IH. lia.
 Qed.
 
-(* what Literal.__new__ lets through: the W3C tag, possibly followed by one line feed *)
-Lemma drop_last_nl_cases : forall l, drop_last_nl l = l \/ l = drop_last_nl l ++ [10].
-Proof.
-  induction l as [|c l IH]; [left; reflexivity|].
-  cbn [drop_last_nl]. destruct l as [|c' l'].
-  - destruct (c =? 10) eqn:E; [right; apply N.eqb_eq in E; subst; reflexivity|left; reflexivity].
-  - destruct IH as [IH|IH]; [left; rewrite IH; reflexivity|right; cbn [app]; f_equal; exact IH].
-Qed.
-
 (* ------------------------------------------------------------ terms *)
 Lemma first_nz_zero : forall l, first_nz l = 0 -> forall x, In x l -> x = 0.
 Proof.
@@ -286,7 +280,7 @@ Definition head_in (cs : list N) (a : str) : Prop :=
 Lemma n3_head : forall t a, n3 t = Some a -> head_in [60; 95] a.
 Proof.
   intros [s|s|lex k] a H; simpl in H.
-  - destruct (valid_uri s); inversion H. simpl. auto.
+  - unfold iri_n3 in H. destruct (valid_uri s); inversion H. simpl. auto.
   - inversion H. simpl. auto.
   - discriminate.
 Qed.
@@ -295,7 +289,10 @@ Proof.
   intros t a H. destruct t as [s|s|lex k].
   - change (n3 (Iri s) = Some a) in H. apply n3_head in H. destruct a; simpl in *; tauto.
   - change (n3 (Bn s) = Some a) in H. apply n3_head in H. destruct a; simpl in *; tauto.
-  - simpl in H. inversion H. unfold quote_literal, quote_encode. simpl. auto.
+  - simpl in H. destruct (lit_exists k); [|discriminate].
+    unfold quote_literal in H.
+    destruct k as [|[|c l]|[|c d]]; try (inversion H; unfold quote_encode; simpl; auto).
+    destruct (iri_n3 (c :: d)); inversion H. unfold quote_encode. simpl. auto.
 Qed.
 Lemma skip_ws_head : forall a X, head_in [34; 60; 95] a -> skip_ws (a ++ X) = a ++ X.
 Proof.
@@ -311,8 +308,7 @@ Lemma p_subject_n3 : forall t a rest, wf_node t = true -> term_kf t = 0 -> n3 t 
 Proof.
   intros [s|s|lex k] a rest Hwf Hkf Hn; simpl in Hwf, Hkf, Hn; try discriminate.
   - unfold wf_iri in Hwf. apply andb_true_iff in Hwf. destruct Hwf as [Hv Hs].
-    rewrite Hv in Hn. inversion Hn; subst a. clear Hn.
-    destruct (has_ctrl s) eqn:Hc; [discriminate|].
+    unfold iri_n3 in Hn. rewrite Hv in Hn. inversion Hn; subst a. clear Hn.
     change ((60 :: s ++ [62]) ++ 32 :: rest) with (60 :: (s ++ [62]) ++ 32 :: rest).
     rewrite <- app_assoc. cbn [app].
     unfold p_subject. cbn [starts_with]. rewrite N.eqb_refl.
@@ -324,12 +320,12 @@ Proof.
     rewrite p_bnode_label; [reflexivity|assumption|reflexivity].
 Qed.
 
-Lemma p_predicate_n3 : forall s a rest, wf_iri s = true -> has_ctrl s = false -> n3 (Iri s) = Some a ->
+Lemma p_predicate_n3 : forall s a rest, wf_iri s = true -> n3 (Iri s) = Some a ->
   p_predicate (a ++ 32 :: rest) = Some (Iri s, 32 :: rest).
 Proof.
-  intros s a rest Hwf Hc Hn. simpl in Hn.
+  intros s a rest Hwf Hn. simpl in Hn.
   unfold wf_iri in Hwf. apply andb_true_iff in Hwf. destruct Hwf as [Hv Hs].
-  rewrite Hv in Hn. inversion Hn; subst a. clear Hn.
+  unfold iri_n3 in Hn. rewrite Hv in Hn. inversion Hn; subst a. clear Hn.
   change ((60 :: s ++ [62]) ++ 32 :: rest) with (60 :: (s ++ [62]) ++ 32 :: rest).
   rewrite <- app_assoc. cbn [app]. unfold p_predicate.
   rewrite p_iriref_plain; [reflexivity|apply valid_uri_iri_ok; assumption|assumption].
@@ -360,26 +356,32 @@ Proof.
     assert (E : starts_with 34 (a ++ 32 :: rest) = false).
     { destruct a as [|c a]; [contradiction|]. simpl in Hh. destruct Hh as [H|[H|[]]]; subst; reflexivity. }
     rewrite E. apply p_subject_n3; assumption.
-  - simpl in Ht. inversion Ht; subst a. clear Ht.
-    unfold quote_literal. rewrite quote_encode_one_pass.
-    unfold p_object. cbn [app starts_with tl]. rewrite N.eqb_refl.
-    rewrite <- !app_assoc. cbn [app].
-    unfold p_literal_tail. rewrite str_body_esc.
-    2:{ rewrite app_length. pose proof (length_flat_map_esc lex). lia. }
-    destruct k as [|l|d]; simpl in Hwf, Hkf.
-    + reflexivity.
-    + destruct (w3c_langtag l) eqn:Hw; [|discriminate].
-      destruct (w3c_langtag_nonempty l Hw) as [c [l' El]]. subst l.
+  - simpl in Ht. destruct (lit_exists k) eqn:Hex; [|discriminate].
+    assert (Hstr : forall suffix, p_object ((quote_encode lex ++ suffix) ++ 32 :: rest) = p_lit_suffix lex (suffix ++ 32 :: rest)).
+    { intro suffix. rewrite quote_encode_one_pass.
+      unfold p_object. cbn [app starts_with tl]. rewrite N.eqb_refl.
+      rewrite <- !app_assoc. cbn [app].
+      unfold p_literal_tail. rewrite str_body_esc; [reflexivity|].
+      rewrite app_length. pose proof (length_flat_map_esc lex). lia. }
+    destruct k as [|l|d]; simpl in Hwf, Hkf, Hex.
+    + assert (Ea : a = quote_encode lex ++ []) by (rewrite app_nil_r; unfold quote_literal in Ht; inversion Ht; reflexivity).
+      rewrite Ea. rewrite Hstr. reflexivity.
+    + unfold py_valid_langtag in Hwf.
+      destruct (w3c_langtag_nonempty l Hwf) as [c [l' El]]. subst l.
+      assert (Ea : a = quote_encode lex ++ 64 :: c :: l') by (unfold quote_literal in Ht; inversion Ht; reflexivity).
+      rewrite Ea. rewrite Hstr.
       cbn [app p_lit_suffix]. rewrite N.eqb_refl.
       change (c :: l' ++ 32 :: rest) with ((c :: l') ++ 32 :: rest).
       rewrite p_langtag_w3c; [reflexivity|assumption|reflexivity|reflexivity].
-    + destruct (iri_ok d) eqn:Hi; [|discriminate].
-      destruct (has_scheme_nonempty d Hwf) as [c [d' Ed]]. subst d.
+    + unfold wf_iri in Hwf. apply andb_true_iff in Hwf. destruct Hwf as [Hv Hs].
+      destruct (has_scheme_nonempty d Hs) as [c [d' Ed]]. subst d.
+      assert (Ea : a = quote_encode lex ++ [94; 94] ++ 60 :: (c :: d') ++ [62]) by (unfold quote_literal, iri_n3 in Ht; rewrite Hv in Ht; inversion Ht; reflexivity).
+      rewrite Ea. rewrite Hstr.
       cbn [app p_lit_suffix]. change (94 =? 64) with false. cbv iota.
       cbn [starts_with]. rewrite N.eqb_refl. cbn [andb tl].
       rewrite <- app_assoc. cbn [app].
       change (60 :: c :: d' ++ 62 :: 32 :: rest) with (60 :: (c :: d') ++ 62 :: 32 :: rest).
-      rewrite p_iriref_plain; [reflexivity|assumption|assumption].
+      rewrite p_iriref_plain; [reflexivity|apply valid_uri_iri_ok; assumption|assumption].
 Qed.
 
 (* ------------------------------------------------------------ statements *)
@@ -399,11 +401,16 @@ Qed.
 Lemma n3_wf_node : forall t, wf_node t = true -> exists a, n3 t = Some a.
 Proof.
   intros [s|s|lex k] H; simpl in *; try discriminate; eauto.
-  unfold wf_iri in H. apply andb_true_iff in H. destruct H as [H _]. rewrite H. eauto.
+  unfold wf_iri in H. apply andb_true_iff in H. destruct H as [H _]. unfold iri_n3. rewrite H. eauto.
 Qed.
 Lemma obj_text_wf : forall t, wf_object t = true -> exists a, obj_text t = Some a.
 Proof.
-  intros [s|s|lex k] H; [apply (n3_wf_node (Iri s) H)|apply (n3_wf_node (Bn s) H)|simpl; eauto].
+  intros [s|s|lex k] H; [apply (n3_wf_node (Iri s) H)|apply (n3_wf_node (Bn s) H)|].
+  simpl. destruct k as [|l|d]; simpl in *.
+  - eauto.
+  - rewrite H. destruct l; eauto.
+  - unfold wf_iri in H. apply andb_true_iff in H. destruct H as [Hv Hs].
+    destruct (has_scheme_nonempty d Hs) as [c [d' E]]. subst d. unfold iri_n3. rewrite Hv. eauto.
 Qed.
 
 (* the part of a row before the final line feed *)
@@ -436,8 +443,7 @@ Proof.
   rewrite (skip_ws_head a) by (apply head_weaken, (n3_head _ _ Ha)).
   rewrite (p_subject_n3 s a _ Hs Ks Ha). rewrite skip_ws_sp.
   rewrite (skip_ws_head b) by (apply head_weaken, (n3_head _ _ Hb)).
-  simpl in Kp. destruct (has_ctrl x) eqn:Hctl; [discriminate|].
-  rewrite (p_predicate_n3 x b _ Hx Hctl Hb). rewrite skip_ws_sp.
+  rewrite (p_predicate_n3 x b _ Hx Hb). rewrite skip_ws_sp.
   rewrite (skip_ws_head c) by (apply (obj_text_head _ _ Hc)).
   rewrite (p_object_text o c _ Ho Ko Hc). rewrite p_end_dot. reflexivity.
 Qed.
@@ -461,8 +467,7 @@ Proof.
   rewrite (skip_ws_head a) by (apply head_weaken, (n3_head _ _ Ha)).
   rewrite (p_subject_n3 s a _ Hs Ks Ha). rewrite skip_ws_sp.
   rewrite (skip_ws_head b) by (apply head_weaken, (n3_head _ _ Hb)).
-  simpl in Kp. destruct (has_ctrl x) eqn:Hctl; [discriminate|].
-  rewrite (p_predicate_n3 x b _ Hx Hctl Hb). rewrite skip_ws_sp.
+  rewrite (p_predicate_n3 x b _ Hx Hb). rewrite skip_ws_sp.
   rewrite (skip_ws_head c) by (apply (obj_text_head _ _ Hc)).
   rewrite (p_object_text o c _ Ho Ko Hc).
   unfold expected. cbn [fst snd andb].
@@ -677,36 +682,30 @@ Proof.
       intros i r' o' Hr Ho. apply (H2 (S i)); assumption.
 Qed.
 
-(* ------------------------------------------------------------ findings: concrete witnesses *)
+(* ------------------------------------------------------------ finding C05c: concrete witness;
+   the former witnesses of C05a/b/d are now refused by the writer *)
 Definition E_ : str := [104; 116; 116; 112; 58; 47; 47; 101; 47].   (* http://e/ *)
 Definition plainx : term := Lit [120] LPlain.
 
-(* C05a: line feed inside an IRI *)
+(* blank node identifier ending in a dot / containing a space *)
+Definition w_bn : triple := (Bn [97; 46], Iri (E_ ++ [112]), Bn [97; 32; 98]).
+(* repaired: line feed inside an IRI (ffbc1d81), '>' / backslash in a datatype IRI (16a2b8eb), language tag with a final
+   line feed (d6b3ed8d): the writer refuses each of them *)
 Definition w_ctrl : triple := (Iri (E_ ++ [97; 10; 98]), Iri (E_ ++ [112]), plainx).
-(* C05b: '>' inside a datatype IRI; and a backslash-u escape that a reader resolves to another IRI *)
 Definition w_dt : triple := (Iri (E_ ++ [97]), Iri (E_ ++ [112]), Lit [120] (LDt (E_ ++ [100; 62; 120]))).
 Definition w_dt2 : triple := (Iri (E_ ++ [97]), Iri (E_ ++ [112]), Lit [120] (LDt (E_ ++ [100; 92; 117; 48; 48; 52; 49]))).
-(* C05c: blank node identifier ending in a dot / containing a space *)
-Definition w_bn : triple := (Bn [97; 46], Iri (E_ ++ [112]), Bn [97; 32; 98]).
-(* C05d: language tag with a final line feed *)
 Definition w_lang : triple := (Iri (E_ ++ [97]), Iri (E_ ++ [112]), Lit [120] (LLang [101; 110; 10])).
 
 Definition refutes (t : triple) : Prop :=
   wf_triple t = true /\ exists l, nt_row t = Some l /\ strict_parse false l <> Some (t, None).
 
-Lemma w_ctrl_refutes : refutes w_ctrl /\ row_kf false (w_ctrl, Iri []) = 1.
-Proof. split; [split; [reflexivity|eexists; split; [reflexivity|vm_compute; discriminate]]|reflexivity]. Qed.
-Lemma w_dt_refutes : refutes w_dt /\ row_kf false (w_dt, Iri []) = 2.
-Proof. split; [split; [reflexivity|eexists; split; [reflexivity|vm_compute; discriminate]]|reflexivity]. Qed.
-Lemma w_dt2_other_meaning : wf_triple w_dt2 = true /\ exists l t',
-  nt_row w_dt2 = Some l /\ strict_parse false l = Some (t', None) /\ t' <> w_dt2.
-Proof. split; [reflexivity|]. eexists. eexists. split; [reflexivity|split; [vm_compute; reflexivity|discriminate]]. Qed.
 Lemma w_bn_refutes : refutes w_bn /\ row_kf false (w_bn, Iri []) = 3.
 Proof. split; [split; [reflexivity|eexists; split; [reflexivity|vm_compute; discriminate]]|reflexivity]. Qed.
-Lemma w_lang_refutes : refutes w_lang /\ row_kf false (w_lang, Iri []) = 4.
-Proof. split; [split; [reflexivity|eexists; split; [reflexivity|vm_compute; discriminate]]|reflexivity]. Qed.
+Lemma repaired_witnesses_refused :
+  nt_row w_ctrl = None /\ nt_row w_dt = None /\ nt_row w_dt2 = None /\ nt_row w_lang = None.
+Proof. vm_compute. repeat split; reflexivity. Qed.
 
-(* the reflected regular expression of _is_valid_langtag is the one py_valid_langtag was written for *)
+(* the reflected regular expression of _is_valid_langtag is the one py_valid_langtag was written for (anchored with \Z) *)
 Lemma lang_tag_regex_pinned :
-  lang_tag_regex_src = [94; 91; 97; 45; 122; 65; 45; 90; 93; 43; 40; 63; 58; 45; 91; 97; 45; 122; 65; 45; 90; 48; 45; 57; 93; 43; 41; 42; 36].
+  lang_tag_regex_src = [94; 91; 97; 45; 122; 65; 45; 90; 93; 43; 40; 63; 58; 45; 91; 97; 45; 122; 65; 45; 90; 48; 45; 57; 93; 43; 41; 42; 92; 90].
 Proof. reflexivity. Qed.
